@@ -332,8 +332,11 @@ Definition locked (L : string) (r w : list loc) (f : list Z -> list Z) : step :=
 Definition z0 (l : list Z) : Z := hd 0%Z l.
 Definition z1 (l : list Z) : Z := hd 0%Z (tl l).
 
-(* ---------------------------------------------------------------- models of the code sites
-   Each is the path one call takes, with the non-atomic C accesses as separate steps. *)
+(* ---------------------------------------------------------------- models of the code sites AS THEY WERE
+   before the fix commits in /repo removed these statics (a4d882c, 48a9f22, 2cfbe59, 25b3584, 311cdc5,
+   f540a5a, 19fe657, 59d75c0).  props/C13_statics.json keeps the symbols classified unsynchronised, so a
+   re-introduction is judged by these models.  Each is the path one call takes, with the non-atomic C
+   accesses as separate steps.  The models of the CURRENT code follow further down (prog_fixed). *)
 Local Open Scope Z_scope.
 
 (* archive_read_format_tar_read_header: for the k-th header read by thread t
@@ -448,6 +451,33 @@ Definition version_details (t : nat) : thread :=
     plain [Private t "len"] [Shared S_str] (fun v => [z0 v + 5]);
     plain [Shared S_str] [Private t "result_len"] (fun v => [z0 v]) ].
 Definition prog_version : prog := [version_details 0; version_details 1].
+
+(* ---------------------------------------------------------------- models of the code sites as they are NOW
+   tar reader: the counters live in struct tar (private to the handle) *)
+Definition tar_header_fixed (t : nat) (k : string) : thread :=
+  [ plain [Private t "tar.default_dev"] [Private t ("dev" ++ k)] (fun v => [1 + z0 v]);
+    plain [Private t "tar.default_inode"] [Private t "tar.default_inode"; Private t ("ino" ++ k)] (fun v => [z0 v + 1; z0 v + 1]);
+    guarded [Private t "tar.default_inode"] [] (fun _ => []) (fun v => z0 v <? 65535) ].
+(* lha reader / base64: constant tables (.rodata, not in the table of writable statics) *)
+Definition S_crc16tbl_const := sname "archive_read_support_format_lha.c" "crc16tbl".
+Definition lha_crc_fixed (t : nat) : thread :=
+  [ plain [Shared S_crc16tbl_const; Private t "byte"] [Private t "crc"] (fun v => [z0 v + z1 v]) ].
+(* disk reader: lst/st automatic *)
+Definition symlink_target_fixed (t : nat) : thread :=
+  [ plain [Private t "my_lst"] [Private t "lst"] (fun v => [z0 v]);
+    plain [Private t "lst"] [Private t "lst_used"] (fun v => [z0 v]) ].
+(* archive_version_details: lock(mtx); if (!init) { build str; init = 1; } unlock(mtx); return str.s;
+   str is initialised once and constant afterwards (class init_once_idempotent: the model treats it as
+   read-only, i.e. abstracts the one initialisation away); init is touched only in the critical section *)
+Definition S_vd_init := sname "archive_version_details.c" "init".
+Definition version_details_fixed (t : nat) : thread :=
+  [ locked "archive_version_details.mtx" [Shared S_vd_init] [Shared S_vd_init] (fun _ => [1]);
+    plain [Shared S_str] [Private t "version"] (fun v => [z0 v]) ].
+Definition fixed_thread (t : nat) : thread :=
+  (tar_header_fixed t "1" ++ version_details_fixed t ++ tar_header_fixed t "2" ++ lha_crc_fixed t ++
+   symlink_target_fixed t ++
+   [ plain [Private t "ino1"; Private t "ino2"] [Private t "delta"] (fun v => [z1 v - z0 v]) ])%list.
+Definition prog_fixed : prog := [fixed_thread 0; fixed_thread 1; fixed_thread 2].
 
 (* ---------------------------------------------------------------- a well-synchronised program
    (non-vacuity of the theorem): three threads, each reads a constant table, computes privately and
